@@ -56,6 +56,7 @@ func checkC09(c *Check) {
 	c09Regex(c, sp)
 	sourceTextIntact(c, "CONTENT-INTACT")
 	c09Truncate(c)
+	c09DecodeLimits(c)
 	suffixes := c09Pairing(c, sp)
 	c09Disjoint(c, suffixes)
 	c09PostProcess(c)
@@ -95,6 +96,26 @@ func c09Regex(c *Check, sp *ssa.Package) {
 				return
 			}
 			problems := regexShapeProblems(pat)
+			// applied to one scanned line at a time, ^ without (?m) is a line start too
+			if len(cl.Common().Args) >= 2 {
+				perLine := derives(cl.Common().Args[1], func(v ssa.Value) bool {
+					call, ok := v.(*ssa.Call)
+					if !ok {
+						return false
+					}
+					o := calleeObj(call)
+					return o != nil && o.Pkg() != nil && o.Pkg().Path() == "bufio" && (o.Name() == "Bytes" || o.Name() == "Text")
+				}, nil)
+				if perLine {
+					var kept []string
+					for _, pr := range problems {
+						if !strings.Contains(pr, "not anchored") || !strings.HasPrefix(pat, "^") {
+							kept = append(kept, pr)
+						}
+					}
+					problems = kept
+				}
+			}
 			// replacement must be the constant "$1"
 			repl := ""
 			if len(cl.Common().Args) >= 3 {
@@ -164,6 +185,14 @@ func c09Regex(c *Check, sp *ssa.Package) {
 					return o != nil && o.Pkg() != nil && o.Pkg().Path() == "regexp" && strings.HasPrefix(o.Name(), "Replace") // shape verified above
 				})
 				if !reached {
+					if _, isK := a.(*ssa.Const); isK {
+						continue
+					}
+					// in a function that encodes and writes, bytes written that are not
+					// the encoder's result came through something else (a scanner, a
+					// second buffer): its framing and limits decide what is written
+					nw++
+					c.Flagf("ENCODED-BYTES-INTACT", fnName(f)+"|encoder bytes written unaltered", p.pos(cl.Pos()), "the bytes written here are not the encoder's result: they pass through an intermediate reader, scanner or buffer (token limits, line framing) between Marshal and Write, so what is written can differ from what was encoded")
 					continue
 				}
 				nw++
@@ -641,5 +670,48 @@ func c09Truncate(c *Check) {
 	c.Counts["output_file_openings"] = n
 	if n == 0 {
 		c.Undecidedf("WRITE-TRUNCATES", "openings", "-", "no output file opening found in the commands and output helpers: unresolved anchor")
+	}
+}
+
+// c09DecodeLimits: whatever the writers emit the readers must accept. The
+// protobuf decoders accept messages nested up to 10000 deep by default, which
+// is also the encoders' bound; a decode option in pkg/pbutil that lowers
+// RecursionLimit makes models that were written successfully unreadable.
+func c09DecodeLimits(c *Check) {
+	p := c.P
+	pkg := p.SSAPkgs[pbutilPkg]
+	if pkg == nil {
+		return
+	}
+	var fns []*ssa.Function
+	for _, m := range pkg.Members {
+		if f, ok := m.(*ssa.Function); ok {
+			fns = append(fns, withClosures(f)...)
+		}
+	}
+	bad := 0
+	for _, f := range fns {
+		if strings.HasSuffix(p.fnFile(f), "_test.go") {
+			continue
+		}
+		eachInstr(f, func(_ *ssa.BasicBlock, i ssa.Instruction) {
+			st, ok := i.(*ssa.Store)
+			if !ok {
+				return
+			}
+			own, fld, _, ok := fieldOfAddr(st.Addr)
+			if !ok || own == nil || own.Obj().Pkg() == nil || !strings.HasPrefix(own.Obj().Pkg().Path(), "google.golang.org/protobuf/") || own.Obj().Name() != "UnmarshalOptions" || fld != "RecursionLimit" {
+				return
+			}
+			k, isK := constInt(st.Val)
+			if isK && (k == 0 || k >= 10000) {
+				return
+			}
+			bad++
+			c.Flagf("DECODE-LIMITS", "pkg/pbutil|decoder accepts what the encoder emits", p.pos(st.Pos()), "a decode option lowers RecursionLimit below the encoders' bound: a deeply nested model is written without complaint and can then neither be decoded nor imported")
+		})
+	}
+	if bad == 0 {
+		c.Okf("DECODE-LIMITS", "pkg/pbutil|decoder accepts what the encoder emits", "-", "%d functions of pkg/pbutil scanned: no decode option lowers the nesting limit", len(fns))
 	}
 }
